@@ -2040,6 +2040,11 @@ func (a *smAn) assign(x *ast.AssignStmt, s *pst) {
 					if tv, ok := a.info.Types[r]; ok && tv.Value != nil {
 						v, _ := constant.Int64Val(tv.Value)
 						s.path.Next = a.stateNames[v]
+						if s.path.Next == s.path.State {
+							// the state it is in already (a helper answering "stay" by naming the state): no transition
+							s.path.Next = ""
+							s.path.NextPos = token.NoPos
+						}
 					} else if a.isIdent(r, a.ovParam) {
 						s.path.Next = a.ctx.Override
 					} else {
